@@ -20,6 +20,8 @@
 //	    shared slice)
 //	S4  a store to a package-level variable (outside init), directly or through it
 //	S5  a store to a variable captured by a closure that is started with `go` (workers sharing a local)
+//	S6  a send or receive on a channel held in a package-level variable or in the model (free lists,
+//	    pools: objects handed from one caller to the next)
 //
 // Output: one line per store site  "STORE <func> <target> <kind> <position> via <entry>[,<entry>...]".
 // props/C18/check.py compares the sites with the footprint the Coq model declares
@@ -369,6 +371,13 @@ func fnName(f *ssa.Function) string {
 	return strings.ReplaceAll(s, " ", "")
 }
 
+func kindWord(r rootInfo) string {
+	if r.kind == rkGlobal {
+		return "global "
+	}
+	return ""
+}
+
 // storesOf lists the shared-memory stores of one function.
 func (a *analysis) storesOf(f *ssa.Function) []site {
 	var res []site
@@ -405,6 +414,28 @@ func (a *analysis) storesOf(f *ssa.Function) []site {
 						add(r.desc+"[...]", "S2", x.Pos())
 					case r.free != nil && a.goTargets[f]:
 						add("captured "+r.free.Name(), "S5", x.Pos())
+					}
+				}
+			case *ssa.Send:
+				// S6: a channel held in a package-level variable or in the model is shared state: a send
+				// or a receive on a read path hands objects from one caller to another (free lists, pools)
+				if r := a.root(x.Chan, 0); (r.kind == rkGlobal && !isInit) || r.kind == rkModel {
+					add(kindWord(r)+r.desc+" (chan send)", "S6", x.Pos())
+				}
+			case *ssa.Select:
+				for _, st := range x.States {
+					if r := a.root(st.Chan, 0); (r.kind == rkGlobal && !isInit) || r.kind == rkModel {
+						dir := "chan receive"
+						if st.Dir == types.SendOnly {
+							dir = "chan send"
+						}
+						add(kindWord(r)+r.desc+" ("+dir+")", "S6", x.Pos())
+					}
+				}
+			case *ssa.UnOp:
+				if x.Op == token.ARROW {
+					if r := a.root(x.X, 0); (r.kind == rkGlobal && !isInit) || r.kind == rkModel {
+						add(kindWord(r)+r.desc+" (chan receive)", "S6", x.Pos())
 					}
 				}
 			case *ssa.MapUpdate:
